@@ -4,6 +4,8 @@ import (
 	"encoding/hex"
 	"fmt"
 	"sort"
+
+	"golang.org/x/exp/slices"
 )
 
 // Stump is bare-minimum data required to validate and update changes in the accumulator.
@@ -87,12 +89,16 @@ func Verify(stump Stump, delHashes []Hash, proof Proof) ([]int, error) {
 	if err != nil {
 		return nil, err
 	}
+	// Each root candidate must match the root of the tree that its targets
+	// are in. Matching it with another root would prove the targets in a
+	// tree that they're not in.
 	rootIndexes := make([]int, 0, len(rootCandidates))
-	for i := range stump.Roots {
-		if len(rootCandidates) > len(rootIndexes) &&
-			stump.Roots[len(stump.Roots)-(i+1)] == rootCandidates[len(rootIndexes)] {
-
-			rootIndexes = append(rootIndexes, len(stump.Roots)-(i+1))
+	trees := targetTrees(stump.NumLeaves, proof.Targets)
+	if len(trees) == len(rootCandidates) {
+		for i, tree := range trees {
+			if tree < len(stump.Roots) && stump.Roots[tree] == rootCandidates[i] {
+				rootIndexes = append(rootIndexes, tree)
+			}
 		}
 	}
 
@@ -125,6 +131,23 @@ func checkProofSanity(numLeaves uint64, proof Proof) error {
 		}
 	}
 
+	// A target can't be the ancestor of another target as its hash is already
+	// calculated from that target.
+	targetSet := make(map[uint64]struct{}, len(targets))
+	for _, target := range targets {
+		targetSet[target] = struct{}{}
+	}
+	for _, target := range targets {
+		pos := target
+		for row := DetectRow(target, totalRows); row < totalRows; row++ {
+			pos = Parent(pos, totalRows)
+			if _, found := targetSet[pos]; found {
+				return fmt.Errorf("invalid proof. Position %d is an ancestor of the position %d",
+					pos, target)
+			}
+		}
+	}
+
 	// An empty hash stands for a deleted node when calculating the hashes. Provers
 	// never give one as they only give the hashes of the nodes that exist.
 	for _, hash := range proof.Proof {
@@ -134,6 +157,25 @@ func checkProofSanity(numLeaves uint64, proof Proof) error {
 	}
 
 	return nil
+}
+
+// targetTrees returns the indexes of the trees that the targets are in without duplicates.
+// The indexes are sorted from the smallest tree to the biggest tree as that's the order
+// calculateHashes returns the calculated roots in.
+func targetTrees(numLeaves uint64, targets []uint64) []int {
+	trees := make([]int, 0, numRoots(numLeaves))
+	for _, target := range targets {
+		tree, _, _, err := DetectOffset(target, numLeaves)
+		if err != nil {
+			continue
+		}
+		if !slices.Contains(trees, int(tree)) {
+			trees = append(trees, int(tree))
+		}
+	}
+	sort.Sort(sort.Reverse(sort.IntSlice(trees)))
+
+	return trees
 }
 
 // del verifies that the passed in proof is correct. Then it calculates the
